@@ -124,7 +124,11 @@ def cases(tier):
     for e in ["A AND B", "A OR B", "NOT A", "A AND B OR C", "A OR B AND C", "NOT A AND B", "NOT A OR B", "A AND NOT B",
               "(A OR B) AND C", "A+B AND C*2", "-A AND B", "A=B", "A<>B", "(A=B)+1", "A<B AND B<C", "1E2", "1.5E+1", "2.5E-1",
               ".5", "5.", "&HFF", "&H7FFF", "&H8000", "&HFFFF", "-1", "+2", "-A^2", "-2^2", "A^-B", "A-B-C", "A/B/C", "A^B^C",
-              "A-(B-C)", "-(A+B)", "-A+B", "-A*B", "2*-A", "A--B", "- A", "1 0", "1E 1"]:
+              "A-(B-C)", "-(A+B)", "-A+B", "-A*B", "2*-A", "A--B", "- A", "1 0", "1E 1",
+              # a parenthesised group that starts with a sign or NOT, in every operand position
+              "(-A+B)*2", "2*(-A+B)", "(-A)*B", "(-A-B)/2", "A-(-B+C)", "A/(-B-C)", "(+A-B)*3", "(-A+B)^2", "2^(-A+B)",
+              "(-A*B)+C", "(NOT A)+1", "2*(NOT A)", "(NOT A AND B)+1", "(-A)^2", "(-A+B)*(-C+X)", "((-A+B))*2", "(-(A+B))*2",
+              "ABS((-A+B)*2)", "(-A+B)*2 AND 7"]:
         add("num", e, "probe")
     for e in ["A=B", "A<>B AND B<C", "A=B OR B=C AND C=X", "NOT A=B", "NOT A=B AND C=X", "NOT (A=B) AND C=X", "(A=B OR B=C) AND NOT (C=X)",
               "A$=B$", "A$<\"B\" OR N$=\"\"", "A$+B$=\"HELLOLL\"", "A", "A+B", "A AND B", "LEN(A$)>2 AND ASC(B$)=76", "INT(A/2)=1",
